@@ -107,6 +107,15 @@ func (ev *enumEval) eval(fr *frame, v ssa.Value) (any, bool) {
 		}
 		ev.undecided("constant kind")
 		return nil, false
+	case *ssa.Parameter:
+		k := ev.leafKey(fr, x)
+		if val, ok := ev.asg[k]; ok {
+			return val, true
+		}
+		ev.undecided("parameter %s is not an input", k)
+		return nil, false
+	case *ssa.Convert:
+		return ev.eval(fr, x.X)
 	case *ssa.Phi:
 		for i, p := range x.Block().Preds {
 			if p == fr.pred {
@@ -206,13 +215,54 @@ func (ev *enumEval) eval(fr *frame, v ssa.Value) (any, bool) {
 		return val, ok && val != nil
 	case *ssa.Call:
 		f := x.Call.StaticCallee()
+		if f != nil && !inModule(f) && len(x.Call.Args) == 1 {
+			// trusted models of unicode rune classes at the few constants the rules ask about
+			name := f.String()
+			if name == "unicode.IsLetter" || name == "unicode.IsDigit" || name == "unicode.IsSpace" {
+				av, ok := ev.eval(fr, x.Call.Args[0])
+				if !ok {
+					return nil, false
+				}
+				rv, isInt := av.(int64)
+				if !isInt {
+					ev.undecided("non-integer rune")
+					return nil, false
+				}
+				if rv < 0 || rv > 127 {
+					if rv < 0 {
+						return false, true
+					}
+					ev.undecided("unicode class of non-ASCII rune %d not modelled", rv)
+					return nil, false
+				}
+				ch := byte(rv)
+				switch name {
+				case "unicode.IsLetter":
+					return ch >= 'a' && ch <= 'z' || ch >= 'A' && ch <= 'Z', true
+				case "unicode.IsDigit":
+					return ch >= '0' && ch <= '9', true
+				default:
+					return ch == ' ' || ch == '\t' || ch == '\n' || ch == '\r' || ch == '\v' || ch == '\f', true
+				}
+			}
+		}
 		if f == nil || !inModule(f) {
 			ev.undecided("call of %s outside the module fragment", ev.c.key(x, nil))
 			return nil, false
 		}
 		var keys []string
-		for _, a := range x.Call.Args {
-			keys = append(keys, ev.leafKey(fr, a))
+		for i, a := range x.Call.Args {
+			k := ev.leafKey(fr, a)
+			// scalar arguments are passed by value: evaluate and bind under a fresh key
+			if b, ok := a.Type().Underlying().(*types.Basic); ok && b.Info()&types.IsInteger != 0 {
+				if av, ok := ev.eval(fr, a); ok {
+					if n, isInt := av.(int64); isInt {
+						k = fmt.Sprintf("%s#arg%d@%d", fnName(f), i, ev.steps)
+						ev.asg[k] = n
+					}
+				}
+			}
+			keys = append(keys, k)
 		}
 		return ev.callFn(f, keys)
 	}
@@ -356,4 +406,18 @@ func (c *Ctx) decisionTable(fn *ssa.Function, argKeys []string, domain []int64) 
 		return leaves, nil, w
 	}
 	return leaves, table, ""
+}
+
+// runePredAt evaluates a module predicate func(rune) bool at a constant rune (A8 constant folding).
+func (c *Ctx) runePredAt(fn *ssa.Function, r int64) (bool, string) {
+	ev := &enumEval{c: c, asg: map[string]int64{"$0": r}}
+	v, ok := ev.callFn(fn, []string{"$0"})
+	if !ok {
+		return false, ev.why
+	}
+	b, isB := v.(bool)
+	if !isB {
+		return false, "not boolean"
+	}
+	return b, ""
 }
